@@ -106,3 +106,14 @@ m('28-drop-file-without-log-record', 'src/column.rs', "\t\t\t\t\t\tif source_ind
 m('29-dec-ref-before-reading-children', 'src/db.rs', "\t\t\tlet node = guard.get_node_children(*address)?;\n\t\t\tlet (remains, _outcome) = column.write_address_dec_ref_plan(*address, writer)?;", "\t\t\tlet (remains, _outcome) = column.write_address_dec_ref_plan(*address, writer)?;\n\t\t\tlet node = guard.get_node_children(*address)?;", {'C10': ['4a children-read-before-node-can-be-freed']})
 m('25-mirror-counted-dereference', 'src/db.rs', "\t\t\t\t\t// Don't add removed ref-counted values to overlay.\n\t\t\t\t\tif !ref_counted {\n\t\t\t\t\t\toverlay.indexed.insert(*k, (record_id, None));\n\t\t\t\t\t}", "\t\t\t\t\t{\n\t\t\t\t\t\toverlay.indexed.insert(*k, (record_id, None));\n\t\t\t\t\t}", {'C07': ['1b removal-mirrored-only-if-not-counted db::IndexedChangeSet']})
 m('40-clear_slot-no-dirty-header', 'src/table.rs', "\t\tself.last_removed.store(index, Ordering::Relaxed);\n\t\tself.dirty_header.store(true, Ordering::Relaxed);\n", "\t\tself.last_removed.store(index, Ordering::Relaxed);\n", {'C10': ['5c header-marked-dirty table::ValueTable::clear_slot']})
+
+# ---- C04
+m('08-sort-unstable', 'src/btree/mod.rs', "\t\t\tself.changes.sort();", "\t\t\tself.changes.sort_unstable();", {'C04': ['1b stable-sort']})
+m('09-ord-uses-variant', 'src/db.rs', "\t\tself.key().cmp(other.key())\n\t}", "\t\tself.key().cmp(other.key()).then(matches!(self, Operation::Set(..)).cmp(&matches!(other, Operation::Set(..))))\n\t}", {'C04': ['1e ordering-by-key-only']})
+m('10-no-tree-refresh-in-next_backend', 'src/btree/iter.rs', "\t\tlet BtreeIterBackend(tree, iter) = &mut self.iter;\n\t\tif record_id != tree.record_id {\n\t\t\tlet new_tree = col.with_locked(|btree| BTree::open(btree, log, record_id))?;\n\t\t\t*tree = new_tree;\n\t\t\tmatch &self.last_key {",
+  "\t\tlet BtreeIterBackend(tree, iter) = &mut self.iter;\n\t\tif record_id > tree.record_id + 1 {\n\t\t\tlet new_tree = col.with_locked(|btree| BTree::open(btree, log, record_id))?;\n\t\t\t*tree = new_tree;\n\t\t\tmatch &self.last_key {", {'C04': ["2b tree-refreshed-when-record-id-differs btree::iter::BTreeIterator::<'a>::next_backend"]})
+# ---- C06
+m('23-marker-collides-with-size', 'src/table.rs', "const MULTIHEAD_COMPRESSED: &[u8] = &[0xfd, 0x7f];", "const MULTIHEAD_COMPRESSED: &[u8] = &[0xf6, 0x7f];", {'C06': ['2']})
+m('24-size-tiers-not-increasing', 'src/column.rs', "\t32, 33, 34, 35, 36, 37, 38, 39, 40, 41, 42, 43, 44, 46,", "\t32, 33, 34, 35, 36, 37, 38, 39, 40, 41, 42, 44, 44, 46,", {'C06': ['1']})
+# ---- C14
+m('41-no-index-remove-on-delete', 'src/column.rs', "\t\t\t\tindex.write_remove_plan(key, sub_index, log)?;\n\t\t\t\tOk(PlanOutcome::Written)", "\t\t\t\tlet _ = (index, sub_index);\n\t\t\t\tOk(PlanOutcome::Written)", {'C14': ['3']})
